@@ -37,18 +37,25 @@ TReset == /\ Ev.e = "Reset"
           /\ parent' = [e \in Entities |-> None]
           /\ equiv' = [v \in Vars |-> {}]
           /\ held' = Entities /\ ret' = None /\ tainted' = FALSE
-TStep == /\ Ev.e = "call" /\ ~tainted
+Outside(c) == Excluded(c) \/ ~Callable(c)
+TStep == /\ Ev.e = "call" /\ ~tainted /\ ~Outside(Ev.c)
          /\ Explained(Ev) /\ UNCHANGED tainted
 \* a step the specification cannot explain: report it, adopt the observed state and go on (so that one run
 \* lists every unexplained step); crashes and hangs land here too
 TUnexplained ==
-    /\ Tolerant /\ Ev.e # "Reset" /\ ~tainted
+    /\ Tolerant /\ Ev.e # "Reset" /\ ~tainted /\ ~(Ev.e = "call" /\ Outside(Ev.c))
     /\ ~ENABLED TStep
     /\ Verdict("bad", l, Ev.sc, IF Ev.e = "call" THEN Ev.c ELSE Ev.e)
     /\ IF Ev.e = "call" THEN Bind(Ev) /\ tainted' = ~OwnershipInv' ELSE UNCHANGED <<vars, ret>> /\ tainted' = TRUE
+\* A walk is generated along one resolution of the specification's nondeterminism (a by-pointer replacement may or may not match a
+\* look-alike); when the library resolves it the other way, a later command of the walk can fall outside the claim in the real state
+\* (adding / replacing with an entity its container already lists, an argument that is no longer alive): the rest of that walk is
+\* not judged
+TOutside == /\ Ev.e = "call" /\ ~tainted /\ Outside(Ev.c)
+            /\ tainted' = TRUE /\ UNCHANGED <<vars, ret>>
 TSkip == Ev.e # "Reset" /\ tainted /\ UNCHANGED <<vars, ret, tainted>>
 
-TNext == l <= Len(TraceLog) /\ l' = l + 1 /\ (TReset \/ TStep \/ TUnexplained \/ TSkip)
+TNext == l <= Len(TraceLog) /\ l' = l + 1 /\ (TReset \/ TStep \/ TOutside \/ TUnexplained \/ TSkip)
 TSpec == TInit /\ [][TNext]_tvars
 Inv == tainted \/ OwnershipInv
 Accepted == LET d == TLCGet("stats").diameter IN PrintT(<<"DEPTH", d>>) /\ d - 1 = Len(TraceLog)
